@@ -27,6 +27,15 @@ Definition guarded_consistently (fps:list fp_row) : bool :=
 Definition entries_found (fps:list fp_row) (expected:list (string * nat)) : bool :=
   forallb (fun e => match find (fun r => String.eqb (fst (fst (fst r))) (fst e)) fps with
                     | Some r => Nat.eqb (List.length (fp_entries r)) (snd e) | None => false end) expected.
+(* a family keeps no package-level state at all: it writes no package-level variable (guarded or not) and reads none but
+   loggers — what its functions return can then depend on their arguments only, whatever was called before *)
+Definition family_stateless (fps:list fp_row) (fam:string) : bool :=
+  match find (fun r => String.eqb (fst (fst (fst r))) fam) fps with
+  | Some r => match fp_writes r with [] => true | _ => false end &&
+              forallb (fun a => is_logger (snd a)) (fp_reads r) &&
+              negb (Nat.eqb (List.length (fp_entries r)) 0)
+  | None => false
+  end.
 Definition expected_entries : list (string * nat) :=
   [("ngap_codec", 4); ("nas_codec", 2); ("key_derive", 4); ("milenage", 4); ("nas_cipher", 1); ("nas_mac", 1); ("nas_protect", 2); ("nea2_nia2", 2); ("nea1_nia1", 2)].
 Definition footprints_ok (fps:list fp_row) : bool :=
